@@ -44,6 +44,21 @@ PROGRAMS = {
         S("lw", "s1", ("m", 0, "sp"), lab="end"), S("sw", "t1", ("m", 16, "sp")), S("addi", "sp", "sp", 16), S("li", "t2", 48),
         S("not", "t5", "t2"), S("neg", "t6", "t5"), S("seqz", "a1", "t6"), S("li", "a7", 93), S("mv", "a0", "a1"), S("ecall"),
     ],
+    "all-registers": [
+        S("li", "t0", 1, lab="main"), S("li", "t1", 2), S("li", "t2", 3), S("li", "t3", 4), S("li", "t4", 5), S("li", "t5", 6), S("li", "t6", 7),
+        S("call", "@user"), S("add", "a0", "t0", "t1"), S("add", "a1", "t2", "t3"), S("add", "a2", "t4", "t5"), S("add", "a3", "a0", "t6"),
+        S("add", "a4", "a1", "a2"), S("add", "a5", "a3", "a4"), S("mv", "a6", "a5"), S("mv", "a0", "a6"), S("li", "a7", 1), S("ecall"),
+        S("mv", "a0", "gp"), S("mv", "a1", "tp"), S("li", "a7", 10), S("ecall"),
+        S("mv", "s2", "s0", lab="user"), S("mv", "s3", "s1"), S("add", "s4", "s2", "s3"), S("add", "s5", "s4", "s4"), S("add", "s6", "s5", "s4"),
+        S("add", "s7", "s6", "s5"), S("add", "s8", "s7", "s6"), S("add", "s9", "s8", "s7"), S("add", "s10", "s9", "s8"), S("add", "s11", "s10", "s9"),
+        S("mv", "a0", "s11"), S("lw", "t5", ("m", 0, "sp")), S("lw", "t6", ("m", 4, "sp")), S("add", "a0", "t5", "t6"), S("ret"),
+    ],
+    "alias-labels": [
+        S("li", "a0", 1, lab="start"), S("call", "@helper2"), S("mv", "a1", "a0"), S("call", "@worker"), S("add", "a0", "a0", "a1"),
+        S("li", "a7", 1), S("ecall"), S("li", "a7", 10), S("ecall"),
+        S("addi", "a0", "a0", 1, lab="helper+helper2"), S("addi", "a0", "a0", 2), S("ret"),
+        S("li", "t0", 3, lab="worker+aaa_worker"), S("add", "a0", "a0", "t0"), S("li", "s1", 1), S("ret"),
+    ],
     "two-functions": [
         S("li", "a0", 3, lab="start"), S("jal", "ra", "@g"), S("mv", "s2", "a0"), S("call", "@h"), S("add", "a0", "a0", "s2"),
         S("li", "a7", 10), S("ecall"),
@@ -84,6 +99,10 @@ def expand(st, on):
         new = ("jal", [ra, ops[0]])
     elif mn == "jal" and len(ops) == 2 and ops[0]["v"] == 1:
         new = ("call", [ops[1]])
+    elif mn == "ret" and on == "expand-mem":
+        new = ("jalr", [z, {"k": "m", "off": 0, "base": 1}])
+    elif mn == "ret" and on == "expand-jr":
+        new = ("jr", [ra])
     elif mn == "ret":
         new = ("jalr", [z, ra, zero_i])
     elif mn == "jalr" and len(ops) == 3 and ops[0]["v"] == 0 and ops[1]["v"] == 1 and ops[2]["v"] == 0:
@@ -116,7 +135,7 @@ def render(prog, style=None, regmap=None, labmap=None):
     for idx, st0 in enumerate(prog):
         on = style.get("sites", "all") == "all" or idx % 2 == 1
         g = (lambda k, d: style.get(k, d) if on else d)
-        st = expand(st0, g("pseudo", "keep") == "expand")
+        st = expand(st0, g("pseudo", "keep") if g("pseudo", "keep") != "keep" else False)
         sep = {"comma": ", ", "space": " ", "tabs": ",\t", "wide": "  ,  "}[g("sep", "comma")]
         mn = st["mn"].upper() if g("case", "lower") == "upper" else st["mn"]
         ops = []
@@ -144,7 +163,10 @@ def render(prog, style=None, regmap=None, labmap=None):
         if g("comment", "none") == "line":
             lines.append("# a comment line before statement %d" % idx)
         if st["lab"]:
-            lab = labmap.get(st["lab"], st["lab"])
+            labs = [labmap.get(x, x) for x in st["lab"].split("+")]      # "a+b": two labels on one instruction
+            for extra in labs[:-1]:
+                lines.append(extra + ":")
+            lab = labs[-1]
             if g("label", "own-line") == "same-line":
                 lines.append(lab + ": " + body.strip())
             else:
